@@ -39,9 +39,9 @@ theorem find?_of_nodup_key {α : Type} (key : α → Vid) (l : List α) (hnd : (
       rw [this]
       exact ih hnd.2 h
 
-/-- The sites inputs can reach inside `make_query_component`: F-12, N-6, N-3, and N-2 when (`r`)
-some edge argument contains an enum literal. -/
-def PostSite (r : Bool) (s : Site) : Prop := CompSite r s ∨ s = .dupOutputVertexIndex
+/-- The sites inputs can reach inside `make_query_component`: N-6, and N-2 when (`r`) some edge
+argument contains an enum literal. -/
+def PostSite (r : Bool) (s : Site) : Prop := CompSite r s
 
 /-- `r` accounts for every enum literal among the arguments of the component's recorded edges. -/
 def EdgesFlag (r : Bool) (cd : CD) : Prop :=
@@ -49,19 +49,20 @@ def EdgesFlag (r : Bool) (cd : CD) : Prop :=
 
 theorem componentPost_sat {S : SchemaView} (hS : ValidSchemaView S) {st : St} {cd : CD}
     (hinv : st.Inv) (hout : 0 < st.outStack.length) (hcd : CD.Inv S st cd)
-    (fillErrs : List FrontErr) {re : Bool} (hflag : EdgesFlag re cd) :
+    (fillErrs : List FrontErr) {re : Bool} (hflag : EdgesFlag re cd)
+    (htop : fillErrs = [] → ∀ o ∈ st.topMap, o.2.vid ∈ cdVids cd) :
     Sat (PostSite re) (componentPost S st cd fillErrs) (fun r =>
       r.1.Inv ∧ r.1.path = st.path ∧ r.1.vidStack = st.vidStack ∧ r.1.nextVid = st.nextVid ∧
       r.1.nextEid = st.nextEid ∧ r.1.prefixes = st.prefixes ∧ r.1.globalOutputs = st.globalOutputs ∧
       st.outStack.length ≤ r.1.outStack.length + 1 ∧
       (∀ es, r.2 = .error es → es ≠ []) ∧
       (∀ comp, r.2 = .ok comp → fillErrs = [] ∧ r.1.outStack.length + 1 = st.outStack.length ∧
-        collectVids comp = cdVids cd)) := by
+        r.1.outStack = st.outStack.dropLast ∧ collectVids comp = cdVids cd)) := by
   unfold componentPost
   have hnd : (([] : List (Vid × String)).map (·.1) ++ cd.vertices.map (·.vid)).Nodup := by
     simpa using hcd.nodup
   refine Sat.bind ((verticesLoop_sat S cd.props cd.vertices st fillErrs [] [] hinv hnd).monoK
-    (fun s h => Or.inl (Or.inl h))) fun r hr => ?_
+    (fun s h => Or.inl h)) fun r hr => ?_
   obtain ⟨hrinv, htag, more, hmore, hdone⟩ := hr
   split
   · rename_i hne
@@ -90,7 +91,7 @@ theorem componentPost_sat {S : SchemaView} (hS : ValidSchemaView S) {st : St} {c
       rw [hcomp, this]
       simp [hvid]
     refine Sat.bind ((edgesLoop_sat hS r.2.2.1 cd.edges [] hedges).monoK
-      (fun s h => Or.inl (Or.inr ⟨h.1, by obtain ⟨e, he, h'⟩ := h.2; exact hflag e he h'⟩)))
+      (fun s h => Or.inr ⟨h.1, by obtain ⟨e, he, h'⟩ := h.2; exact hflag e he h'⟩))
       fun edgeErrs _ => ?_
     split
     · rename_i hne
@@ -105,7 +106,7 @@ theorem componentPost_sat {S : SchemaView} (hS : ValidSchemaView S) {st : St} {c
         rw [List.getLast?_eq_none_iff, htag.outStack] at hnone
         rw [hnone] at hout
         exact absurd hout (by simp)
-      · rename_i top _
+      · rename_i top htopeq
         simp only [bind_ok]
         have hinv2 : St.Inv { r.1 with outStack := r.1.outStack.dropLast } :=
           ⟨hrinv.path_ne, hrinv.imported_keys, hrinv.tags_path_ne, hrinv.prefixes_lt,
@@ -118,13 +119,34 @@ theorem componentPost_sat {S : SchemaView} (hS : ValidSchemaView S) {st : St} {c
               htag.globalOutputs, by simp only []; omega, ?_, ?_⟩
             · intro es h; cases h; simp
             · intro comp h; cases h
-          · exact Or.inr rfl
+          · rename_i hall
+            -- `ir_vertices[&vid]` cannot fail: every output of this component's map refers to one
+            -- of its vertices or to a vertex of one of its folds
+            exfalso
+            apply hall
+            rw [List.all_eq_true]
+            intro f hf
+            unfold duplicateRefs at hf
+            obtain ⟨o, ho, rfl⟩ := List.mem_map.mp hf
+            have ho' : o ∈ st.topMap := by
+              have : st.topMap = top := by
+                simp [St.topMap, ← htag.outStack, htopeq]
+              rw [this]; exact (List.mem_filter.mp ho).1
+            have hv := htop hfill o ho'
+            simp only [cdVids, List.mem_append] at hv
+            simp only [Bool.or_eq_true, List.any_eq_true, beq_iff_eq, List.contains_eq_mem,
+              decide_eq_true_eq]
+            rcases hv with h | h
+            · left
+              obtain ⟨v, hv', hvv⟩ := List.mem_map.mp h
+              exact ⟨(v.vid, v.postType), by rw [hir]; exact List.mem_map_of_mem hv', hvv⟩
+            · right; exact h
         · refine ⟨hinv2, htag.path, htag.vidStack, htag.nextVid, htag.nextEid, htag.prefixes,
             htag.globalOutputs, by simp only []; omega, ?_, ?_⟩
           · intro es h; cases h
           · intro comp h
             cases h
-            refine ⟨hfill, hlen, ?_⟩
+            refine ⟨hfill, hlen, by rw [htag.outStack], ?_⟩
             simp [collectVids, cdVids, hir]
 
 
@@ -159,11 +181,11 @@ theorem foldOutputs_sat (field : FieldRefM) (localName : String) (outs : List Ou
     ∀ (st : St) (errs : List FrontErr) (names : List String), st.Inv → 0 < st.outStack.length →
     Sat (fun _ => False) (foldOutputs field localName st errs names outs)
       (fun r => St.Step st r.1 True ∧ r.1.outStack.length = st.outStack.length ∧
-        OutNew st r.1 (· = field) ∧ ∃ more, r.2.1 = errs ++ more) := by
+        OutNew st r.1 (· = field) ∧ TopNew st r.1 (· = field) ∧ ∃ more, r.2.1 = errs ++ more) := by
   induction outs with
   | nil =>
     intro st errs names hinv _
-    exact ⟨St.Step.refl hinv _, rfl, OutNew.refl _ _, [], by simp⟩
+    exact ⟨St.Step.refl hinv _, rfl, OutNew.refl _ _, TopNew.refl _ _, [], by simp⟩
   | cons o rest ih =>
     intro st errs names hinv hout
     unfold foldOutputs
@@ -173,16 +195,18 @@ theorem foldOutputs_sat (field : FieldRefM) (localName : String) (outs : List Ou
       · exact registerLocalOutput_sat hinv hout _ _ field
     · have hout' : 0 < r.1.outStack.length := by rw [hr.outLen]; exact hout
       split
-      · refine (ih r.1 _ names hr.inv hout').mono fun r' h => ⟨?_, ?_, ?_, ?_⟩
+      · refine (ih r.1 _ names hr.inv hout').mono fun r' h => ⟨?_, ?_, ?_, ?_, ?_⟩
         · exact hr.trans_step h.1
         · rw [h.2.1, hr.outLen]
         · exact (OutNew.of_registered hr).trans h.2.2.1 (fun _ x => x) (fun _ x => x)
-        · obtain ⟨m, hm⟩ := h.2.2.2
+        · exact hr.top.trans h.2.2.2.1 (fun _ x => x) (fun _ x => x)
+        · obtain ⟨m, hm⟩ := h.2.2.2.2
           exact ⟨FrontErr.MultipleOutputsWithSameName :: m, by simp [hm]⟩
-      · refine (ih r.1 errs _ hr.inv hout').mono fun r' h => ⟨?_, ?_, ?_, h.2.2.2⟩
+      · refine (ih r.1 errs _ hr.inv hout').mono fun r' h => ⟨?_, ?_, ?_, ?_, h.2.2.2.2⟩
         · exact hr.trans_step h.1
         · rw [h.2.1, hr.outLen]
         · exact (OutNew.of_registered hr).trans h.2.2.1 (fun _ x => x) (fun _ x => x)
+        · exact hr.top.trans h.2.2.2.1 (fun _ x => x) (fun _ x => x)
 
 theorem foldTags_spec (field : FieldRefM) (ts : List TagDirective) :
     ∀ (st : St) (errs : List FrontErr), st.Inv →
@@ -225,7 +249,8 @@ theorem foldTransform_sat {st : St} (hinv : st.Inv) (hout : 0 < st.outStack.leng
     (subAlias : Option String) (e0 : List FrontErr) :
     Sat (FoldSite tg.retransform.isSome) (foldTransform st tg foldEid startVid subName subAlias e0)
       (fun r => St.Step st r.1 True ∧ r.1.outStack.length = st.outStack.length ∧
-        OutNew st r.1 (fun f => f.vid = startVid) ∧ ∃ more, r.2.1 = e0 ++ more) := by
+        OutNew st r.1 (fun f => f.vid = startVid) ∧ TopNew st r.1 (fun f => f.vid = startVid) ∧
+        ∃ more, r.2.1 = e0 ++ more) := by
   unfold foldTransform
   split
   · rename_i hr
@@ -236,10 +261,10 @@ theorem foldTransform_sat {st : St} (hinv : st.Inv) (hout : 0 < st.outStack.leng
     have hout1 : 0 < rf.1.outStack.length := by rw [htag1.outStack]; exact hout
     refine Sat.bind ((foldOutputs_sat (.foldCount foldEid startVid) _ tg.outputs rf.1 rf.2.1 []
       hinv1 hout1).monoK (fun _ h => h.elim)) fun ro hro => ?_
-    obtain ⟨hstep2, hlen2, hnew2, m2, hm2⟩ := hro
+    obtain ⟨hstep2, hlen2, hnew2, htop2, m2, hm2⟩ := hro
     obtain ⟨hstep3, hout3, hglob3, m3, hm3⟩ :=
       foldTags_spec (.foldCount foldEid startVid) tg.tags ro.1 ro.2.1 hstep2.inv
-    refine ⟨?_, ?_, ?_, ?_⟩
+    refine ⟨?_, ?_, ?_, ?_, ?_⟩
     · exact ((St.Step.of_tagOnly hinv1 htag1 True).trans hstep2 (fun x => ⟨x, x⟩)).trans hstep3
         (fun x => ⟨x, x⟩)
     · show (foldTags _ ro.1 ro.2.1 tg.tags).1.outStack.length = _
@@ -248,6 +273,11 @@ theorem foldTransform_sat {st : St} (hinv : st.Inv) (hout : 0 < st.outStack.leng
       have h3 : OutNew ro.1 (foldTags (.foldCount foldEid startVid) ro.1 ro.2.1 tg.tags).1
           (fun f => f.vid = startVid) := OutNew.of_eq hglob3 _
       refine (h1.trans hnew2 (fun _ x => x) ?_).trans h3 (fun _ x => x) (fun _ x => x)
+      intro f hf; subst hf; rfl
+    · have h1 : TopNew st rf.1 (fun f => f.vid = startVid) := TopNew.of_eq htag1.outStack _
+      have h3 : TopNew ro.1 (foldTags (.foldCount foldEid startVid) ro.1 ro.2.1 tg.tags).1
+          (fun f => f.vid = startVid) := TopNew.of_eq hout3 _
+      refine (h1.trans htop2 (fun _ x => x) ?_).trans h3 (fun _ x => x) (fun _ x => x)
       intro f hf; subst hf; rfl
     · exact ⟨m1 ++ m2 ++ m3, by
         show (foldTags _ ro.1 ro.2.1 tg.tags).2 = _
@@ -261,7 +291,7 @@ theorem foldPost_sat {st : St} (hinv : st.Inv) (hout : 0 < st.outStack.length) {
       (fun r => r.1.Inv ∧ r.1.path = base ∧ r.1.vidStack = st.vidStack ∧
         r.1.outStack.length = st.outStack.length ∧ st.nextVid ≤ r.1.nextVid ∧
         st.nextEid ≤ r.1.nextEid ∧ (∀ p ∈ st.prefixes, p ∈ r.1.prefixes) ∧
-        OutNew st r.1 (fun f => f.vid = startVid) ∧
+        OutNew st r.1 (fun f => f.vid = startVid) ∧ TopNew st r.1 (fun f => f.vid = startVid) ∧
         (∀ es, r.2 = .error es → es ≠ []) ∧ (∀ fold, r.2 = .ok fold → fold.2.2 = comp)) := by
   obtain ⟨st1, st2, ext, h1, h2, hinv2, hpath2, hvs2, hos2, hnv2, hne2, hpf2, hgo2⟩ :=
     popFold_ok hinv hp hb
@@ -273,18 +303,21 @@ theorem foldPost_sat {st : St} (hinv : st.Inv) (hout : 0 < st.outStack.length) {
   · have hcommon : st2.Inv ∧ st2.path = base ∧ st2.vidStack = st.vidStack ∧
         st2.outStack.length = st.outStack.length ∧ st.nextVid ≤ st2.nextVid ∧
         st.nextEid ≤ st2.nextEid ∧ (∀ p ∈ st.prefixes, p ∈ st2.prefixes) ∧
-        OutNew st st2 (fun f => f.vid = startVid) :=
+        OutNew st st2 (fun f => f.vid = startVid) ∧ TopNew st st2 (fun f => f.vid = startVid) :=
       ⟨hinv2, hpath2, hvs2, by rw [hos2], by rw [hnv2]; exact Nat.le_refl _,
-        by rw [hne2]; exact Nat.le_refl _, fun p h => by rw [hpf2]; exact h, OutNew.of_eq hgo2 _⟩
+        by rw [hne2]; exact Nat.le_refl _, fun p h => by rw [hpf2]; exact h, OutNew.of_eq hgo2 _,
+        TopNew.of_eq hos2 _⟩
     cases subHasOutput
     · simp only [Bool.false_eq_true, ↓reduceIte, List.isEmpty_nil]
       refine ⟨hcommon.1, hcommon.2.1, hcommon.2.2.1, hcommon.2.2.2.1, hcommon.2.2.2.2.1,
-        hcommon.2.2.2.2.2.1, hcommon.2.2.2.2.2.2.1, hcommon.2.2.2.2.2.2.2, ?_, ?_⟩
+        hcommon.2.2.2.2.2.1, hcommon.2.2.2.2.2.2.1, hcommon.2.2.2.2.2.2.2.1,
+        hcommon.2.2.2.2.2.2.2.2, ?_, ?_⟩
       · intro es h; cases h
       · intro fold h; cases h; rfl
     · simp only [↓reduceIte, List.isEmpty_cons, Bool.false_eq_true]
       refine ⟨hcommon.1, hcommon.2.1, hcommon.2.2.1, hcommon.2.2.2.1, hcommon.2.2.2.2.1,
-        hcommon.2.2.2.2.2.1, hcommon.2.2.2.2.2.2.1, hcommon.2.2.2.2.2.2.2, ?_, ?_⟩
+        hcommon.2.2.2.2.2.1, hcommon.2.2.2.2.2.2.1, hcommon.2.2.2.2.2.2.2.1,
+        hcommon.2.2.2.2.2.2.2.2, ?_, ?_⟩
       · intro es h; cases h; simp
       · intro fold h; cases h
   · rename_i tg htg
@@ -292,26 +325,29 @@ theorem foldPost_sat {st : St} (hinv : st.Inv) (hout : 0 < st.outStack.length) {
     rw [hretr]
     refine Sat.bind (foldTransform_sat hinv2 hout2 tg foldEid startVid subName subAlias _)
       fun t ht => ?_
-    obtain ⟨hstep, hlen, hnew, m, hm⟩ := ht
+    obtain ⟨hstep, hlen, hnew, htopt, m, hm⟩ := ht
     obtain ⟨ext', hext, hexact⟩ := hstep.path
     have hpath : t.1.path = base := by
       rw [hext, hexact trivial, hpath2]; simp
     have hcommon : t.1.Inv ∧ t.1.path = base ∧ t.1.vidStack = st.vidStack ∧
         t.1.outStack.length = st.outStack.length ∧ st.nextVid ≤ t.1.nextVid ∧
         st.nextEid ≤ t.1.nextEid ∧ (∀ p ∈ st.prefixes, p ∈ t.1.prefixes) ∧
-        OutNew st t.1 (fun f => f.vid = startVid) :=
+        OutNew st t.1 (fun f => f.vid = startVid) ∧ TopNew st t.1 (fun f => f.vid = startVid) :=
       ⟨hstep.inv, hpath, hstep.vidStack.trans hvs2, by rw [hlen, hos2],
        by rw [← hnv2]; exact hstep.nextVid, by rw [← hne2]; exact hstep.nextEid,
        fun p h => hstep.prefixes p (by rw [hpf2]; exact h),
-       (OutNew.of_eq hgo2 (fun f => f.vid = startVid)).trans hnew (fun _ x => x) (fun _ x => x)⟩
+       (OutNew.of_eq hgo2 (fun f => f.vid = startVid)).trans hnew (fun _ x => x) (fun _ x => x),
+       (TopNew.of_eq hos2 (fun f => f.vid = startVid)).trans htopt (fun _ x => x) (fun _ x => x)⟩
     split
     · refine ⟨hcommon.1, hcommon.2.1, hcommon.2.2.1, hcommon.2.2.2.1, hcommon.2.2.2.2.1,
-        hcommon.2.2.2.2.2.1, hcommon.2.2.2.2.2.2.1, hcommon.2.2.2.2.2.2.2, ?_, ?_⟩
+        hcommon.2.2.2.2.2.1, hcommon.2.2.2.2.2.2.1, hcommon.2.2.2.2.2.2.2.1,
+        hcommon.2.2.2.2.2.2.2.2, ?_, ?_⟩
       · intro es h; cases h
       · intro fold h; cases h; rfl
     · rename_i hne
       refine ⟨hcommon.1, hcommon.2.1, hcommon.2.2.1, hcommon.2.2.2.1, hcommon.2.2.2.2.1,
-        hcommon.2.2.2.2.2.1, hcommon.2.2.2.2.2.2.1, hcommon.2.2.2.2.2.2.2, ?_, ?_⟩
+        hcommon.2.2.2.2.2.1, hcommon.2.2.2.2.2.2.1, hcommon.2.2.2.2.2.2.2.1,
+        hcommon.2.2.2.2.2.2.2.2, ?_, ?_⟩
       · intro es h; cases h
         intro h0; simp [h0] at hne
       · intro fold h; cases h
@@ -324,9 +360,9 @@ theorem registerPropertyOutputs_sat (ref : FieldRefM) (localName : String)
     ∀ (st : St), st.Inv → 0 < st.outStack.length →
     Sat (fun _ => False) (registerPropertyOutputs ref localName st outs)
       (fun st' => St.Step st st' True ∧ st'.outStack.length = st.outStack.length ∧
-        OutNew st st' (· = ref)) := by
+        OutNew st st' (· = ref) ∧ TopNew st st' (· = ref)) := by
   induction outs with
-  | nil => intro st hinv _; exact ⟨St.Step.refl hinv _, rfl, OutNew.refl _ _⟩
+  | nil => intro st hinv _; exact ⟨St.Step.refl hinv _, rfl, OutNew.refl _ _, TopNew.refl _ _⟩
   | cons o rest ih =>
     intro st hinv hout
     unfold registerPropertyOutputs
@@ -335,9 +371,10 @@ theorem registerPropertyOutputs_sat (ref : FieldRefM) (localName : String)
       · exact registerOutput_sat hinv hout _ ref
       · exact Sat.bind (registerLocalOutput_sat hinv hout _ _ ref) fun r h => h
     · have hout' : 0 < st'.outStack.length := by rw [hr.outLen]; exact hout
-      refine (ih st' hr.inv hout').mono fun st'' h => ⟨hr.trans_step h.1, ?_, ?_⟩
+      refine (ih st' hr.inv hout').mono fun st'' h => ⟨hr.trans_step h.1, ?_, ?_, ?_⟩
       · rw [h.2.1, hr.outLen]
-      · exact (OutNew.of_registered hr).trans h.2.2 (fun _ x => x) (fun _ x => x)
+      · exact (OutNew.of_registered hr).trans h.2.2.1 (fun _ x => x) (fun _ x => x)
+      · exact hr.top.trans h.2.2.2 (fun _ x => x) (fun _ x => x)
 
 theorem registerPropertyTags_spec (ref : FieldRefM) (dflt : String) (ts : List TagDirective) :
     ∀ (st : St) (errs : List FrontErr), st.Inv →
@@ -406,23 +443,28 @@ theorem fillProperty_sat {S : SchemaView} {st : St} {cd : CD} (hinv : st.Inv)
       (fillProperty cur conn subName subAlias subFilters subOutputs subTags fieldName ty st cd)
       (fun r => St.Step st r.1 True ∧ r.1.outStack.length = st.outStack.length ∧
         CD.Inv S r.1 r.2.1 ∧ r.2.1.vertices = cd.vertices ∧ r.2.1.edges = cd.edges ∧
-        r.2.1.folds = cd.folds ∧ OutNew st r.1 (fun f => f.vid = cur)) := by
+        r.2.1.folds = cd.folds ∧ OutNew st r.1 (fun f => f.vid = cur) ∧
+        TopNew st r.1 (fun f => f.vid = cur)) := by
   unfold fillProperty
   dsimp only
   refine Sat.bind (recordProperty_sat hcd hcur hty subFilters) fun props hprops => ?_
   refine Sat.bind (registerPropertyOutputs_sat (.context cur subName ty) _ subOutputs st hinv hout)
     fun st1 h1 => ?_
-  obtain ⟨hstep1, hlen1, hnew1⟩ := h1
+  obtain ⟨hstep1, hlen1, hnew1, htop1⟩ := h1
   obtain ⟨hstep2, hout2, hglob2⟩ :=
     registerPropertyTags_spec (.context cur subName ty) (subAlias.getD subName) subTags st1 []
       hstep1.inv
   have hstep := hstep1.trans hstep2 (fun x => (⟨x, x⟩ : True ∧ True))
-  refine ⟨hstep, by rw [hout2, hlen1], ?_, rfl, rfl, rfl, ?_⟩
+  refine ⟨hstep, by rw [hout2, hlen1], ?_, rfl, rfl, rfl, ?_, ?_⟩
   · exact ⟨hcd.nodup, fun v hv => Nat.lt_of_lt_of_le (hcd.vidsLt v hv) hstep.nextVid,
       fun e he => Nat.lt_of_lt_of_le (hcd.eidsLt e he) hstep.nextEid, hcd.edgesOk, hprops⟩
   · have h3 : OutNew st1 (registerPropertyTags (.context cur subName ty) (subAlias.getD subName) st1
         [] subTags).1 (fun f => f.vid = cur) := OutNew.of_eq hglob2 _
     refine (hnew1.trans h3 ?_ (fun _ x => x) : OutNew st _ (fun f => f.vid = cur))
+    intro f hf; subst hf; rfl
+  · have h3 : TopNew st1 (registerPropertyTags (.context cur subName ty) (subAlias.getD subName) st1
+        [] subTags).1 (fun f => f.vid = cur) := TopNew.of_eq hout2 _
+    refine (htop1.trans h3 ?_ (fun _ x => x) : TopNew st _ (fun f => f.vid = cur))
     intro f hf; subst hf; rfl
 
 end TF.FE
